@@ -90,6 +90,73 @@ def readAll (bs : Bytes) : Option (List Entry × End) :=
   | .error _ => none
   | .ok off => some (readFrom (bs.length / 60 + 1) bs off [])
 
+/-! ### the same iterator over any random-access source
+
+`nextR` / `readFromR` are `next` / `readFrom` with the `ReadAt` function as a parameter
+(`next_eq_nextR` below keeps the two texts identical).  A source given by runs (literal
+bytes and runs of zero bytes) lets archives with members of 10^9 bytes and more be
+iterated without materialising them; `Lemmas/ArSparse.lean` proves that this is the
+iterator above on the flattened bytes. -/
+
+def nextR (rd : Nat → Nat → Bytes) (off : Nat) : NextResult :=
+  let line := rd off 60
+  if line.length < 60 then .eof else
+  match parseEntry line off with
+  | .error _ => .bad
+  | .ok e =>
+    if e.size < 0 then .bad else
+    let size := e.size.toNat
+    if size > 0 ∧ (rd (off + 60 + size - 1) 1).length ≠ 1 then .bad else
+    .entry e (off + 60 + size + size % 2)
+
+theorem next_eq_nextR (bs : Bytes) (off : Nat) : next bs off = nextR (readAt bs) off := rfl
+
+def readFromR (rd : Nat → Nat → Bytes) : Nat → Nat → List Entry → List Entry × End
+  | 0, _, acc => (acc, .fuel)
+  | fuel+1, off, acc =>
+    match nextR rd off with
+    | .eof => (acc, .eof)
+    | .bad => (acc, .bad)
+    | .entry e off' => readFromR rd fuel off' (acc ++ [e])
+
+inductive Seg where
+  | lit (b : Bytes)
+  | zeros (n : Nat)
+  deriving Repr
+
+def Seg.len : Seg → Nat
+  | .lit b => b.length
+  | .zeros n => n
+
+def Seg.bytes : Seg → Bytes
+  | .lit b => b
+  | .zeros n => List.replicate n 0
+
+/-- the byte string a list of runs stands for (specification only: never evaluated on
+    large runs) -/
+def flatten (segs : List Seg) : Bytes := segs.flatMap Seg.bytes
+
+def totalLen (segs : List Seg) : Nat := (segs.map Seg.len).sum
+
+/-- at most `n` bytes of one run from `off` on -/
+def Seg.slice : Seg → Nat → Nat → Bytes
+  | .lit b, off, n => (b.drop off).take n
+  | .zeros k, off, n => List.replicate (min n (k - off)) 0
+
+/-- `ReadAt` on a list of runs, without expanding them -/
+def readAtS : List Seg → Nat → Nat → Bytes
+  | [], _, _ => []
+  | s :: rest, off, n =>
+    if s.len ≤ off then readAtS rest (off - s.len) n else
+    s.slice off n ++ readAtS rest 0 (n - (s.slice off n).length)
+
+/-- `LoadAr` + iteration over a list of runs -/
+def readAllS (segs : List Seg) : Option (List Entry × End) :=
+  let h := readAtS segs 0 8
+  if h.length < 8 then none
+  else if h ≠ magic then none
+  else some (readFromR (readAtS segs) (totalLen segs / 60 + 1) 8 [])
+
 /-- what the member's reader delivers -/
 def data (bs : Bytes) (e : Entry) : Bytes := readAt bs e.dataOff e.size.toNat
 
